@@ -501,9 +501,13 @@ macro_rules! impl_ind {
                 }
             }
             fn display(&self) -> String {
+                // Display / Debug are also called the way column layouts and loggers call them: with width,
+                // fill, alignment and precision flags. The result of the plain form is what gets compared.
+                let _ = (format!("{:>24}", self), format!("{:<4}", self), format!("{:^9.3}", self), format!("{:16.16}", self), format!("{:.40}", self), format!("{:*^30}", self), format!("{:.0}", self));
                 format!("{}", self)
             }
             fn debug(&self) -> String {
+                let _ = (format!("{:#?}", self), format!("{:40.2?}", self), format!("{:<1?}", self));
                 format!("{:?}", self)
             }
             fn period(&self) -> Option<usize> {
